@@ -532,7 +532,11 @@ def extract(obj, P, pkts):
     for fname, node in P['fields']:
         if node['k'] == 'em':
             continue
-        vals[fname] = extract_value(getattr(obj, fname), node, pkts)
+        try:
+            v = getattr(obj, fname)
+        except AttributeError:
+            v = '<unset>'           # a slot that was never filled is an observation, not a crash of the harness
+        vals[fname] = extract_value(v, node, pkts)
     return PV(P['name'], vals)
 
 
